@@ -100,6 +100,16 @@ func Load(repo string, opt LoadOptions) (*Program, error) {
 		p = q
 	}
 	sort.Strings(renamed)
+	// functions of the inventory that gained a parameter they never use get their old signature back
+	if overlay, notes := p.dropAddedParams(opt.Baseline); overlay != nil {
+		q, err := load(repo, opt, token.NewFileSet(), overlay)
+		if err != nil {
+			p.Notes = append(p.Notes, fmt.Sprintf("unused-parameter normalisation skipped (%v)", err))
+		} else {
+			q.Notes = append(p.Notes, "signatures restored: "+strings.Join(notes, "; "))
+			p = q
+		}
+	}
 	// methods of the inventory that were turned into functions of their receiver become methods again
 	if overlay, notes := p.remethod(opt.Baseline); overlay != nil {
 		q, err := load(repo, opt, token.NewFileSet(), overlay)
